@@ -16,6 +16,7 @@ package schemaClient
 
 import (
 	"context"
+	"sort"
 	"strings"
 	"sync"
 
@@ -128,10 +129,16 @@ func (scb *SchemaClientBoundImpl) ToPath(ctx context.Context, path []string) (*s
 		if schemaKeys := schema.GetSchema().GetContainer().GetKeys(); schemaKeys != nil {
 			// add key map
 			newPathElem.Key = make(map[string]string, len(schemaKeys))
-			// adding the keys with the value from path[i], which is the key value
+			// adding the keys with the value from path[i], which is the key value.
+			// The key values appear in the path in the alphabetical order of the key names (see utils.ToStrings)
+			keyNames := make([]string, 0, len(schemaKeys))
 			for _, k := range schemaKeys {
+				keyNames = append(keyNames, k.Name)
+			}
+			sort.Strings(keyNames)
+			for _, k := range keyNames {
 				i++
-				newPathElem.Key[k.Name] = path[i]
+				newPathElem.Key[k] = path[i]
 			}
 		}
 	}
